@@ -818,13 +818,38 @@ func c14grammarBlock(c *vt.Ctx, id string, n int, cancelled bool) {
 	}, s: func(context.Context, *jrpc2.Request) (any, error) { return "ok", nil }}, opts)
 	got := make([]error, n)
 	rsps := make([]*jrpc2.Response, n)
-	bg := context.Background() // the callers' contexts never end
+	viaBatch := make([]bool, n) // issued as a member of a Client.Batch: several failing calls answered in one message
+	bg := context.Background()  // the callers' contexts never end
 	var wg sync.WaitGroup
 	for g := 0; g < callers; g++ {
 		wg.Add(1)
+		grng := c.Env.Rand(fmt.Sprint(id, "/caller", g))
 		go func() {
 			defer wg.Done()
 			for i := g; i < n; i += callers {
+				if !cancelled && grng.IntN(3) == 0 {
+					// this and up to three of the caller's following inputs go out as one batch
+					var idxs []int
+					var specs []jrpc2.Spec
+					for k := 0; k < 2+grng.IntN(3) && i+k*callers < n; k++ {
+						idxs = append(idxs, i+k*callers)
+						specs = append(specs, jrpc2.Spec{Method: "err", Params: []int{i + k*callers}})
+					}
+					rs, err := rig.cli.Batch(bg, specs)
+					for j, idx := range idxs {
+						viaBatch[idx] = true
+						if err != nil || j >= len(rs) {
+							got[idx] = fmt.Errorf("harness: Batch failed: %v (%d responses for %d specs)", err, len(rs), len(specs))
+							continue
+						}
+						rsps[idx] = rs[j]
+						if e := rs[j].Error(); e != nil {
+							got[idx] = e
+						}
+					}
+					i += (len(idxs) - 1) * callers
+					continue
+				}
 				if modes[i] == c14cancelNone || modes[i] == c14cancelSelf {
 					rsps[i], got[i] = rig.cli.Call(bg, "err", []int{i})
 					continue
@@ -931,7 +956,10 @@ func c14grammarBlock(c *vt.Ctx, id string, n int, cancelled bool) {
 			}
 		}
 		// (d) context sentinels
-		if len(coders) == 0 && (canc || dead) {
+		if viaBatch[i] {
+			c.Count("errors_compared_through_batch", 1)
+		}
+		if len(coders) == 0 && (canc || dead) && !viaBatch[i] { // Batch hands out *Error values, Call the sentinels
 			c.Count("ctx_sentinel_identity_checks", 1)
 			okc := canc && e == context.Canceled
 			okd := dead && e == context.DeadlineExceeded
@@ -1378,7 +1406,7 @@ func init() {
 		Rule: "G: seeded grammar of handler error values (bare *Error literal / Errorf / Errorf+WithData with codes from boundaries, the reserved range and random int32, " +
 			"messages incl. empty, escapes, unicode, 6 KB, data = random valid JSON with whitespace; jrpc2.Error value; Code.Err(); three custom ErrCoder types incl. one that wraps; " +
 			"context.Canceled / DeadlineExceeded; plain and %v-opaque errors; wrapped <=3 deep by fmt.Errorf %w, two-%w, errors.Join, custom Unwrap() error / Unwrap() []error), " +
-			"each returned by a handler of a live Server and compared with what a live Client.Call returns (4 concurrent callers, -race). " +
+			"each returned by a handler of a live Server and compared with what a live Client.Call returns (4 concurrent callers, -race); a third of the inputs go out in Client.Batch groups of 2-4, so that several failing calls are answered in one message. " +
 			"X: the same grammar and the same oracle with the server-side context of every call cancelled before its handler returns (Server.CancelRequest(id) by the handler itself / by a second handler reached by a call / by a second handler reached by a notification / by a goroutine outside any handler; mode drawn per input), the caller's context live; the handler records ctx.Err()!=nil before returning. " +
 			"U: 18 kinds of unmarshalable handler results in a synctest bubble (quiescence decides 'missing response'), wire record checked. " +
 			"P1: ErrorCode(c.Err())==c on boundary ranges + 10^6 random codes (quick) / all 2^32 codes (thorough). P2: WithData receiver snapshot (fields, slice header, bytes up to capacity) " +
@@ -1392,7 +1420,7 @@ func init() {
 			"block X: the request is cancelled on the server only (Server.CancelRequest); cancellation of the caller's own context, where Call returns the context error by design, is outside this block. Server.CancelRequest returning before the target's context is Done, and a call sent after a notification starting only after the notification's handler returned, are relied on for coverage (counters), not for verdicts",
 		},
 		Require: map[string]int64{
-			"calls_compared": 10000, "bare_error_field_compares": 2000, "bare_error_data_compares": 500,
+			"calls_compared": 10000, "errors_compared_through_batch": 1500, "bare_error_field_compares": 2000, "bare_error_data_compares": 500,
 			"ctx_sentinel_identity_checks": 1000, "ctx_sentinel_wrapped": 300,
 			"cancelled_handler_errors_compared": 10000, "cancelled_system_class_errors_compared": 800, "cancelled_bare_error_field_compares": 1500,
 			"cancelled_via_self": 1500, "cancelled_via_peer-call": 1500, "cancelled_via_peer-notification": 1500, "cancelled_via_direct": 1500,
